@@ -98,6 +98,8 @@ fn upgraded_handler(
         return Ok(Vec::new());
     }
     // V2: newline-terminated records; acknowledges each; an incomplete record is returned as unread
+    // V3: like V2, but (as the repository's ping example does) a batch ends with the record "End\n":
+    //     the handler returns there and is called again for the next batch
     loop {
         let mut line = Vec::new();
         let n = bufreader
@@ -117,6 +119,9 @@ fn upgraded_handler(
             .write_all(&line)
             .map_err(varlink::map_context!())?;
         call.writer.flush().map_err(varlink::map_context!())?;
+        if mode == 3 && line == b"End\n" {
+            return Ok(Vec::new());
+        }
     }
 }
 
